@@ -27,16 +27,16 @@ def run(c):
     # --- head write is control dependent on has_more_work(b.header, head-at-entry) == true
     c.r2("head-guarded", P + "process_block", cond=r"^pipe::has_more_work\(arg0\.header, Batch::head\(arg1\.batch\)",
          fail_on=False, sink=P + "update_head", desc="process_block: update_head only on the true edge of has_more_work(b.header, head read at entry)")
-    c.r2("rollback-unless-more-work", P + "process_block::{closure#0}", cond=r"^pipe::has_more_work\(.*header, Batch::head\(",
+    c.r2("rollback-unless-more-work", P + "process_block@txhashset::txhashset::extending", cond=r"^pipe::has_more_work\(.*header, Batch::head\(",
          fail_on=True, sink="grin_chain::txhashset::txhashset::Extension::force_rollback", dominate=False,
          desc="extension closure: force_rollback is on the false edge of has_more_work, ok-exit with commit only on the true edge")
-    c.r1("rollback-or-more-work", P + "process_block::{closure#0}", "grin_chain::txhashset::txhashset::Extension::force_rollback",
-         sink="ok", extra_cuts=_true_edges(c, P + "process_block::{closure#0}", r"^pipe::has_more_work\("),
+    c.r1("rollback-or-more-work", P + "process_block@txhashset::txhashset::extending", "grin_chain::txhashset::txhashset::Extension::force_rollback",
+         sink="ok", extra_cuts=_true_edges(c, P + "process_block@txhashset::txhashset::extending", r"^pipe::has_more_work\("),
          desc="extension closure: every ok exit either took has_more_work==true or called force_rollback")
-    for h, fn in (("header", "process_block_header"), ("headers", "process_block_headers::{closure#0}")):
+    for h, fn in (("header", "process_block_header"), ("headers", "process_block_headers@txhashset::txhashset::header_extending")):
         c.r2("header-head-guarded-" + h, P + fn, cond=r"^pipe::has_more_work\(", fail_on=False, sink=P + "update_header_head",
              desc="%s: update_header_head only on the true edge of has_more_work" % fn)
-    for h, fn in (("header", "process_block_header::{closure#0}"), ("headers", "process_block_headers::{closure#0}")):
+    for h, fn in (("header", "process_block_header@txhashset::txhashset::header_extending"), ("headers", "process_block_headers@txhashset::txhashset::header_extending")):
         c.r1("header-rollback-or-more-work-" + h, P + fn, "grin_chain::txhashset::txhashset::HeaderExtension::force_rollback", sink="ok",
              extra_cuts=_true_edges(c, P + fn, r"^pipe::has_more_work\("),
              desc="%s: every ok exit either took has_more_work==true or called force_rollback" % fn)
@@ -45,10 +45,10 @@ def run(c):
              [P + "check_known", P + "validate_pow_only", P + "process_block_header", P + "validate_block",
               "grin_chain::txhashset::txhashset::extending", P + "add_block"], sink=P + "update_head", via=0)
     # the extension closure applies the block only after fork rewind + UTXO + sums
-    c.r1_all("apply-after-checks", P + "process_block::{closure#0}",
+    c.r1_all("apply-after-checks", P + "process_block@txhashset::txhashset::extending",
              [P + "rewind_and_apply_fork", P + "verify_coinbase_maturity", P + "validate_utxo", P + "verify_block_sums"],
              sink=P + "apply_block_to_txhashset", via=0)
-    c.r1("ok-after-apply", P + "process_block::{closure#0}", P + "apply_block_to_txhashset", sink="ok", via=0)
+    c.r1("ok-after-apply", P + "process_block@txhashset::txhashset::extending", P + "apply_block_to_txhashset", sink="ok", via=0)
     # --- known-check gating and orphan processing
     c.r1("header-first", P + "process_block_header", P + "validate_header", sink=P + "update_header_head", via=0)
     c.r1("header-store-after-validate", P + "process_block_header", P + "validate_header", sink=P + "add_block_header", via=0)
